@@ -16,6 +16,7 @@ fn capture_configs() -> Vec<(&'static str, Vec<&'static str>)> {
         ("nan+negative-fraction", vec!["c = 0 / 0", "d = -0.5"]),
         ("infinities", vec!["c = inf", "d = -inf"]),
         ("strings-quotes", vec!["c = \"s\"", "d = \"it's \" + '\"q\"'"]),
+        ("strings-both-quotes-non-ascii", vec!["c = \"\u{e9}'\" + '\"\u{1f600}'", "d = {[\"\u{e9}'\" + '\"']: [\"'\u{e9}\" + '\"']}"]),
         ("strings-backslash-newline", vec!["c = \"a\\b\"", "d = \"line\nbreak\""]),
         ("list+record", vec!["c = [1, \"a\", [2]]", "d = {k: 1, \"a b\": [2], x: 3, [\"q'\" + '\"']: 4}"]),
         ("closure-with-captures", vec!["k2 = 10", "c = 2", "d = n => n * k2 + c"]),
@@ -502,7 +503,7 @@ pub fn run(ctx: &Ctx, replay: Option<&J>) -> i32 {
     finish(
         ctx,
         "exploration",
-        "function bodies = every node kind alone, every parent x child kind in every slot, depth-3 spines (plus binder-collision kinds: inner parameter / do-local / shorthand named like a captured name, postfix on captured values) over typed leaves x, y, captured c, d, literals; x 12 capture configurations (negative, NaN, infinities, -0, strings with both quote kinds / backslash / newline, nested list, record with quoted keys, closures with their own captures, built-ins) x all argument pairs from a 6/11-value pool; original vs from_json(to_json(f)) reloaded into a fresh heap vs re-emitted-and-reloaded; real `blots p1 | blots p2` for a spread; distinct = distinct (body, configuration) pairs whose definition evaluates",
+        "function bodies = every node kind alone, every parent x child kind in every slot, depth-3 spines (plus binder-collision kinds: inner parameter / do-local / shorthand named like a captured name, postfix on captured values) over typed leaves x, y, captured c, d, literals; x 13 capture configurations (negative, NaN, infinities, -0, strings with both quote kinds / backslash / newline, nested list, record with quoted keys, closures with their own captures, built-ins) x all argument pairs from a 6/11-value pool; original vs from_json(to_json(f)) reloaded into a fresh heap vs re-emitted-and-reloaded; real `blots p1 | blots p2` for a spread; distinct = distinct (body, configuration) pairs whose definition evaluates",
         true,
         None,
     )
